@@ -218,9 +218,36 @@ def call_structure(idx: ProgramIndex, rep: Report):
                 # unconditional rebuilds would discard caches but stay correct; an unguarded *reuse* with new data is C03
     rep.add("C01-4", inst + "[dispatch]", fi.where, not probs, "training -> prior (with equality check); prior_mode or missing data -> prior; else posterior with the strategy built from the training data when absent" if not probs else "; ".join(probs), {})
     # result assembly
-    rets = [r for r in ast.walk(fi.node) if isinstance(r, ast.Return) and r.value is not None and isinstance(r.value, ast.Call) and src(r.value.func).endswith(".__class__")]
-    ok = len(rets) == 1 and [src(a) for a in rets[0].value.args] == ["predictive_mean", "predictive_covar"] and src(rets[0].value.func) == "full_output.__class__"
-    rep.add("C01-4", inst + "[result]", fi.where, ok, "returns the class of the joint prior built from (predictive mean, predictive covariance)" if ok else "the posterior is not returned as full_output.__class__(predictive_mean, predictive_covar)", {})
+    # result assembly (decided on inlined definitions, so local names do not matter): the returned value is
+    #   <joint prior>.__class__(<exact_prediction(...)>[0] up to shape-only methods, <exact_prediction(...)>[1])
+    from ..symbolic import inline, walk_paths
+    SHAPE = ("view", "reshape", "contiguous", "expand", "to", "squeeze", "unsqueeze")
+
+    def strip_shape(e):
+        while isinstance(e, ast.Call) and isinstance(e.func, ast.Attribute) and e.func.attr in SHAPE:
+            e = e.func.value
+        return e
+
+    def component(e):
+        e = strip_shape(e)
+        if isinstance(e, ast.Subscript) and isinstance(e.slice, ast.Constant) and isinstance(e.value, ast.Call) and isinstance(e.value.func, ast.Attribute) and e.value.func.attr == "exact_prediction":
+            return e.slice.value
+        return None
+
+    nres, bad = 0, []
+    for path, seq in walk_paths(fi):
+        for st, env in seq:
+            if isinstance(st, ast.Return) and st.value is not None and isinstance(st.value, ast.Call) and isinstance(st.value.func, ast.Attribute) and st.value.func.attr == "__class__":
+                nres += 1
+                v = inline(st.value, env)
+                joint = v.func.value
+                if not (isinstance(joint, ast.Call) and isinstance(joint.func, ast.Attribute) and joint.func.attr == "__call__" and isinstance(joint.func.value, ast.Call) and chain(joint.func.value.func) == "super"):
+                    bad.append("the class is not taken from the joint prior returned by super().__call__")
+                comps = [component(a) for a in v.args]
+                if comps != [0, 1]:
+                    bad.append("the arguments are not (predictive mean, predictive covariance) of exact_prediction in that order (got components %s)" % comps)
+    ok = nres >= 1 and not bad
+    rep.add("C01-4", inst + "[result]", fi.where, ok, "returns the class of the joint prior built from (predictive mean, predictive covariance) of exact_prediction" if ok else ("the posterior is not returned as <joint prior>.__class__(predictive mean, predictive covariance): " + "; ".join(sorted(set(bad)) or ["no such return"])), {})
 
 
 # ---- C01-5 ---------------------------------------------------------------------------------------------------------
